@@ -10,6 +10,10 @@ pub assume_specification[ usize::div_ceil ](a: usize, b: usize) -> (r: usize)
     requires b != 0,
     ensures r as int == ceil_div(a as int, b as int);
 
+pub assume_specification<T>[ <[T]>::swap ](s: &mut [T], a: usize, b: usize)
+    requires (a as int) < old(s)@.len(), (b as int) < old(s)@.len(),
+    ensures final(s)@ == old(s)@.update(a as int, old(s)@[b as int]).update(b as int, old(s)@[a as int]);
+
 pub open spec fn rw(width: int) -> int { ceil_div(width, 64) }
 pub open spec fn bit_of(w: u64, b: int) -> bool { w & (1u64 << (b as u64)) != 0 }
 // the abstract matrix: cell (i, j) of a dense matrix
@@ -67,6 +71,24 @@ pub proof fn lemma_alloc(h: int, w: int)
     lemma_div_is_ordered(64 * (h * q), h * (w + 63), 64);
     lemma_div_multiples_vanish(h * q, 64);
 }
+pub proof fn lemma_row_base(h: int, w: int, i: int)
+    requires 0 <= i < h, w >= 0,
+    ensures 0 <= i * rw(w), i * rw(w) + rw(w) <= h * rw(w), rw(w) >= 0,
+{
+    lemma_ceil_div_exact(w, 64);
+    let r = rw(w);
+    assert(i * r >= 0) by (nonlinear_arith) requires i >= 0, r >= 0;
+    assert(i * r + r <= h * r) by (nonlinear_arith) requires i + 1 <= h, r >= 0;
+}
+pub proof fn lemma_rows_disjoint(w: int, i: int, j: int)
+    requires i != j, i >= 0, j >= 0, w >= 0,
+    ensures i * rw(w) + rw(w) <= j * rw(w) || j * rw(w) + rw(w) <= i * rw(w),
+{
+    lemma_ceil_div_exact(w, 64);
+    let r = rw(w);
+    if i < j { assert(i * r + r <= j * r) by (nonlinear_arith) requires i + 1 <= j, r >= 0; }
+    else { assert(j * r + r <= i * r) by (nonlinear_arith) requires j + 1 <= i, r >= 0; }
+}
 pub proof fn lemma_set_bit(w: u64, b: u64, c: u64)
     requires b < 64, c < 64,
     ensures bit_of(w | (1u64 << b), c as int) == (if c == b { true } else { bit_of(w, c as int) }),
@@ -107,7 +129,25 @@ def build():
     u.raw('} // verus!')
     u.raw(SPEC)
     u.trust('assume_specification usize::div_ceil: ceil(a/b) (std documented behaviour)')
+    u.trust('assume_specification <[T]>::swap: exchanges the two elements, panics if out of bounds (std documented behaviour)')
     u.raw('verus! {')
+    u.raw('''
+// util::get_both_ranges (safe code: split_at_mut) and gf2::add_assign_binary (iterator zip): external, contracts assumed
+#[verifier::external_body]
+fn get_both_ranges(vector: &mut Vec<u64>, i: usize, j: usize, len: usize) -> (r: (&mut [u64], &mut [u64]))
+    requires i as int + len as int <= old(vector)@.len(), j as int + len as int <= old(vector)@.len(), i as int + len as int <= j as int || j as int + len as int <= i as int,
+    ensures r.0@ == old(vector)@.subrange(i as int, i as int + len as int), r.1@ == old(vector)@.subrange(j as int, j as int + len as int),
+            final(r.0)@.len() == len as int, final(r.1)@.len() == len as int, final(vector)@.len() == old(vector)@.len(),
+            forall |p: int| 0 <= p < old(vector)@.len() ==> #[trigger] final(vector)@[p] == (
+                if i as int <= p < i as int + len as int { final(r.0)@[p - i as int] } else if j as int <= p < j as int + len as int { final(r.1)@[p - j as int] } else { old(vector)@[p] }),
+{ unimplemented!() }
+#[verifier::external_body]
+fn add_assign_binary(dest: &mut [u64], src: &[u64])
+    requires src@.len() >= old(dest)@.len(),
+    ensures final(dest)@.len() == old(dest)@.len(), forall |k: int| 0 <= k < old(dest)@.len() ==> #[trigger] final(dest)@[k] == old(dest)@[k] ^ src@[k],
+{ unimplemented!() }
+''', label='get_both_ranges / add_assign_binary contracts')
+    u.trust('util::get_both_ranges (safe code, split_at_mut) and gf2::add_assign_binary (iter_mut().zip()): external; contracts assumed (two disjoint mutable sub-slices; element-wise xor)')
     u.raw('impl DenseBinaryMatrix {')
     IMPL = 'impl DenseBinaryMatrix'
     u.fn('src/matrix.rs', 'row_word_width', impl=IMPL, ret='r', requires=['self.width <= 0xffff_ffff'], ensures=['r as int == rw(self.width as int)'])
@@ -148,6 +188,96 @@ def build():
         lemma_word_index(o.height as int, w, i2, j2);
         lemma_set_bit(o.elements@[i as int * rw(w) + j as int / 64], (j as int % 64) as u64, (j2 % 64) as u64);
         if i2 != i as int || j2 != j as int { lemma_cell_distinct(w, i as int, j as int, i2, j2); }
+    }
+}""")
+    u.fn('src/matrix.rs', 'swap_rows', impl=T, ret='r',
+         requires=['dm_wf(*old(self))', '(i as int) < old(self).height', '(j as int) < old(self).height'],
+         ensures=['dm_wf(*final(self))', FRAME,
+                  'forall |i2: int, j2: int| in_range(*old(self), i2, j2) ==> #[trigger] cell(*final(self), i2, j2) == cell(*old(self), if i2 == i as int { j as int } else if i2 == j as int { i as int } else { i2 }, j2)'],
+         prepend='proof { lemma_row_base(self.height as int, self.width as int, i as int); lemma_row_base(self.height as int, self.width as int, j as int); }',
+         loops={0: {'spec': ('invariant dm_wf(*self), self.height == old(self).height, self.width == old(self).width, self.elements@.len() == old(self).elements@.len(),'
+                             ' (i as int) < self.height, (j as int) < self.height, row_i as int == i as int * rw(self.width as int), row_j as int == j as int * rw(self.width as int),'
+                             ' row_i as int + rw(self.width as int) <= self.height as int * rw(self.width as int), row_j as int + rw(self.width as int) <= self.height as int * rw(self.width as int),'
+                             ' k as int <= rw(self.width as int),'
+                             ' forall |p: int| 0 <= p < self.elements@.len() ==> #[trigger] self.elements@[p] == ('
+                             '   if row_i as int <= p < row_i as int + k as int { old(self).elements@[row_j as int + (p - row_i as int)] }'
+                             '   else if row_j as int <= p < row_j as int + k as int { old(self).elements@[row_i as int + (p - row_j as int)] }'
+                             '   else { old(self).elements@[p] }),'),
+                    'body_top': 'proof { if i != j { lemma_rows_disjoint(self.width as int, i as int, j as int); } }'}},
+         append="""proof {
+    let o = *old(self); let n = *self; let w = o.width as int; let r = rw(w);
+    assert forall |i2: int, j2: int| in_range(o, i2, j2) implies #[trigger] cell(n, i2, j2) == cell(o, if i2 == i as int { j as int } else if i2 == j as int { i as int } else { i2 }, j2) by {
+        lemma_word_index(o.height as int, w, i2, j2);
+        lemma_word_index(o.height as int, w, i as int, j2);
+        lemma_word_index(o.height as int, w, j as int, j2);
+        if i2 != i as int { lemma_rows_disjoint(w, i2, i as int); }
+        if i2 != j as int { lemma_rows_disjoint(w, i2, j as int); }
+        if i != j { lemma_rows_disjoint(w, i as int, j as int); }
+    }
+}""")
+    SWAPPED = ('(if hint <= i2 && i2 < %s { cell(*old(self), i2, if j2 == i as int { j as int } else if j2 == j as int { i as int } else { j2 }) } else { cell(*old(self), i2, j2) })')
+    u.fn('src/matrix.rs', 'swap_columns', impl=T, ret='r',
+         requires=['dm_wf(*old(self))', '(i as int) < old(self).width', '(j as int) < old(self).width', 'start_row_hint <= old(self).height'],
+         ensures=['dm_wf(*final(self))', FRAME,
+                  'forall |i2: int, j2: int| in_range(*old(self), i2, j2) ==> #[trigger] cell(*final(self), i2, j2) == '
+                  '(if start_row_hint as int <= i2 { cell(*old(self), i2, if j2 == i as int { j as int } else if j2 == j as int { i as int } else { j2 }) } else { cell(*old(self), i2, j2) })'],
+         inserts=[('let unset_i =', 'before', 'let ghost hint = start_row_hint as int; let ghost gbi = bit_i as u64; let ghost gbj = bit_j as u64;\nproof { lemma_word_index(1, self.width as int, 0, i as int); lemma_word_index(1, self.width as int, 0, j as int); assert(0 * rw(self.width as int) == 0) by (nonlinear_arith); }')],
+         loops={0: {'spec': ('invariant dm_wf(*self), self.height == old(self).height, self.width == old(self).width, self.elements@.len() == old(self).elements@.len(), dm_wf(*old(self)),'
+                             ' (i as int) < self.width, (j as int) < self.width, hint == start_row_hint as int, hint <= row as int, row as int <= self.height,'
+                             ' row_width as int == rw(self.width as int), word_i as int == i as int / 64, word_j as int == j as int / 64, gbi as int == i as int % 64, gbj as int == j as int % 64, gbi < 64, gbj < 64,'
+                             ' bit_i == 1u64 << gbi, bit_j == 1u64 << gbj, unset_i == !(1u64 << gbi), unset_j == !(1u64 << gbj),'
+                             ' forall |p: int| row as int * rw(self.width as int) <= p < self.elements@.len() ==> #[trigger] self.elements@[p] == old(self).elements@[p],'
+                             ' forall |i2: int, j2: int| in_range(*old(self), i2, j2) && i2 < row as int ==> #[trigger] cell(*self, i2, j2) == ' + (SWAPPED % 'row as int') + ','),
+                    'body_top': ('let ghost pre = *self;\nproof { lemma_word_index(self.height as int, self.width as int, row as int, i as int); lemma_word_index(self.height as int, self.width as int, row as int, j as int);'
+                                 ' lemma_row_base(self.height as int, self.width as int, row as int); }'),
+                    'body_bottom': """proof {
+    let o = *old(self); let n = *self; let w = o.width as int; let r = rw(w); let rr = row as int;
+    let wi = rr * r + i as int / 64; let wj = rr * r + j as int / 64;
+    let oi = o.elements@[wi]; let oj = o.elements@[wj];
+    assert(pre.elements@[wi] == oi && pre.elements@[wj] == oj);
+    // the two words after the four updates
+    let i_set = bit_of(oi, i as int % 64);
+    let j_set = bit_of(oj, j as int % 64);
+    assert forall |p: int| (rr + 1) * r <= p < n.elements@.len() implies #[trigger] n.elements@[p] == o.elements@[p] by {
+        assert((rr + 1) * r == rr * r + r) by (nonlinear_arith);
+    }
+    assert forall |i2: int, j2: int| in_range(o, i2, j2) && i2 < rr + 1 implies #[trigger] cell(n, i2, j2) == """ + (SWAPPED % 'rr + 1') + """ by {
+        lemma_word_index(o.height as int, w, i2, j2);
+        if i2 < rr {
+            lemma_rows_disjoint(w, i2, rr);
+            assert(n.elements@[i2 * r + j2 / 64] == pre.elements@[i2 * r + j2 / 64]);
+            assert(cell(n, i2, j2) == cell(pre, i2, j2));
+        } else {
+            let c = (j2 % 64) as u64;
+            lemma_set_bit(oi, gbi, c); lemma_set_bit(oj, gbj, c);
+            if wi == wj {
+                // both columns in the same word: the second pair of updates acts on the result of the first
+                let mid = if j_set { oi | (1u64 << gbi) } else { oi & !(1u64 << gbi) };
+                lemma_set_bit(mid, gbj, c);
+                lemma_set_bit(oi, gbi, gbj); lemma_set_bit(oi, gbj, gbi);
+            }
+            lemma_fundamental_div_mod(j2, 64); lemma_fundamental_div_mod(i as int, 64); lemma_fundamental_div_mod(j as int, 64);
+        }
+    }
+}"""}})
+    u.fn('src/matrix.rs', 'add_assign_rows', impl=T, ret='r', rules=['A1'],
+         requires=['dm_wf(*old(self))', '(dest as int) < old(self).height', '(src as int) < old(self).height', 'dest != src'],
+         ensures=['dm_wf(*final(self))', FRAME,
+                  'forall |i2: int, j2: int| in_range(*old(self), i2, j2) ==> #[trigger] cell(*final(self), i2, j2) == '
+                  '(if i2 == dest as int { cell(*old(self), dest as int, j2) != cell(*old(self), src as int, j2) } else { cell(*old(self), i2, j2) })'],
+         prepend='proof { lemma_row_base(self.height as int, self.width as int, dest as int); lemma_row_base(self.height as int, self.width as int, src as int); lemma_rows_disjoint(self.width as int, dest as int, src as int); }',
+         append="""proof {
+    let o = *old(self); let n = *self; let w = o.width as int; let r = rw(w);
+    assert forall |i2: int, j2: int| in_range(o, i2, j2) implies #[trigger] cell(n, i2, j2) ==
+        (if i2 == dest as int { cell(o, dest as int, j2) != cell(o, src as int, j2) } else { cell(o, i2, j2) }) by {
+        lemma_word_index(o.height as int, w, i2, j2);
+        lemma_word_index(o.height as int, w, dest as int, j2);
+        lemma_word_index(o.height as int, w, src as int, j2);
+        if i2 == dest as int {
+            lemma_xor_bit(o.elements@[dest as int * r + j2 / 64], o.elements@[src as int * r + j2 / 64], (j2 % 64) as u64);
+        } else {
+            lemma_rows_disjoint(w, i2, dest as int);
+        }
     }
 }""")
     u.raw('}')
